@@ -7,6 +7,8 @@ pair of faults for the short base streams, plus random frame sequences.
 """
 from __future__ import annotations
 
+import contextlib
+import io
 import itertools
 import random
 from typing import Any, Dict, Iterable, List, Optional, Sequence, Tuple
@@ -155,6 +157,16 @@ def judge(col: common.Collector, stream: List[Frame], ids: Sequence[int], base: 
     from odxtools.isotp_state_machine import IsoTpActiveDecoder
     from .c12 import StubBus
     active = IsoTpActiveDecoder(StubBus(), list(ids), [i + 0x100 for i in ids])
+    # ... and so do the decoders the snoop tool builds (they print what goes wrong)
+    verbose = []
+    try:
+        import odxtools.cli.snoop as snoop
+        verbose = [("snoop-passive", snoop.init_verbose_state_machine(IsoTpStateMachine, list(ids))),
+                   ("snoop-active", snoop.init_verbose_state_machine(
+                       IsoTpActiveDecoder, StubBus(), list(ids), [i + 0x100 for i in ids]))]
+    except ImportError:
+        col.count("snoop-decoders-unavailable")
+    sink = io.StringIO()
     env = {i: Envelope() for i in ids}
     suffix, suffix_exp = recovery_suffix(ids)
     fkinds = "+".join(sorted(set(f[0] for f in faults))) or "none"
@@ -184,6 +196,21 @@ def judge(col: common.Collector, stream: List[Frame], ids: Sequence[int], base: 
                 f"reported {aout}, passive {out}", n)
             return
         col.count("active-frames")
+        for vname, vdec in verbose:
+            try:
+                with contextlib.redirect_stdout(sink):
+                    vout = [(rid, bytes(pl)) for rid, pl in vdec.decode_rx_frame(cid, data)]
+            except Exception as e:
+                bad("active-raises", f"{vname}/{type(e).__name__}/{kind_of(data)}", f"frame {n} "
+                    f"({cid:x}#{data.hex()}): {vname}: {type(e).__name__}: {e}", n)
+                return
+            if vout != out:
+                bad("active-differs", vname + "/" + kind_of(data), f"frame {n} ({cid:x}#{data.hex()}): "
+                    f"{vname} reported {vout}, the plain machine {out}", n)
+                return
+            col.count("snoop-decoder-frames")
+        sink.seek(0)
+        sink.truncate()
         if cid not in env:
             if out:
                 bad("fabricated", "unrelated-id", f"frame {n} on unmonitored id reported {out}", n)
